@@ -848,14 +848,14 @@ class Analyzer:
         elif l.get('k') == 'ref' and l.get('dk') == 'local' and self.u.ty(l.get('ty0', l['ty']))['c'] == 'int':
             # a scalar local that carries a failure position (size_t position = buffer->offset; ... X.position = position)
             tracked = any(f[0] in ('posin', 'posoff', 'poswhy') and f[1] == l['n'] for f in st.acc)
-            if tracked or (op == '=' and (self.position_value(a['r'], st)[0] is not None or self._mentions_position(a['r'], st))):
+            if tracked or (op == '=' and (self.position_value(a['r'], st, probe=True)[0] is not None or self._mentions_position(a['r'], st))):
                 poskey = l['n']
         if poskey is not None:
             # BND5: what is known about a failure position when it is stored; the verdict is given where it is published
             key = poskey
             st.acc = frozenset(f for f in st.acc if not (f[0] in ('posin', 'posoff', 'poswhy') and f[1] == key))
             if op == '=':
-                kind, why = self.position_value(a['r'], st)
+                kind, why = self.position_value(a['r'], st, probe=(l.get('k') != 'mem'))
                 if kind == 'in':
                     st.acc = st.acc | {('posin', key)}
                 elif kind is not None:
@@ -1322,7 +1322,7 @@ class Analyzer:
         k = self._pos_key(r0)
         return k is not None and any(f[0] in ('posin', 'posoff', 'poswhy') and f[1] == k for f in st.acc)
 
-    def position_value(self, r0, st):
+    def position_value(self, r0, st, probe=False):
         """('in', why) when the value is shown to be 0 or inside buffer B; (B, why) when it is B.offset without such a proof;
         (None, why) otherwise"""
         r = strip_casts(r0)
@@ -1351,6 +1351,8 @@ class Analyzer:
                 return 'in', '%s.length - %d with length >= %d' % (bl, cc, cc)
             return None, '%s.length - %d without length >= %d' % (bl, cc, cc)
         if r.get('k') == 'bin' and r['op'] == '-' and self.u.ty(strip_casts(r['l']).get('ty0', strip_casts(r['l']).get('ty')))['c'] == 'ptr':
+            if probe:
+                return None, 'a difference of pointers'
             # a position formed as the distance between two pointers: this analysis follows positions that are kept as indices
             self.__dict__.setdefault('unmodelled', []).append(
                 '%s: the failure position is formed as the difference of pointers %s; BND5 follows positions kept as indices, where a '
